@@ -291,13 +291,22 @@ def run(ctx):
               and isinstance(n.stmt.targets[0], ast.Subscript)
               and dotted(n.stmt.targets[0].value) == "retdict"]
     ctx.require(stores, "disk_io_counters: result store vanished")
-    good = False
+    # the entry is stored iff `perdisk or is_storage_device(name)`: decided on the truth
+    # table of the guards of the store (any spelling: skip-with-continue, positive
+    # block, nested ifs)
+    from ..core.astutil import guard_truth_table
+    good = bool(stores)
     for n in stores:
-        for e, pol, _ in cfg.guards(n):
-            if pol is False and isinstance(e, ast.BoolOp) and isinstance(e.op, ast.And):
-                txt = [norm_stmt(v).replace(" ", "") for v in e.values]
-                if "notperdisk" in txt and any(t.startswith("notis_storage_device(") for t in txt):
-                    good = True
+        names_, tb = guard_truth_table([(e, p) for e, p, _ in cfg.guards(n)])
+        isd_atoms = [a_ for a_ in names_ if a_.startswith("is_storage_device(")]
+        if tb is None or "perdisk" not in names_ or len(isd_atoms) != 1 \
+                or set(names_) - {"perdisk", isd_atoms[0]}:
+            good = False
+            continue
+        for vals, v_ in tb.items():
+            env_ = dict(zip(names_, vals))
+            if v_ != (env_["perdisk"] or env_[isd_atoms[0]]):
+                good = False
     isd = repo.func("_pslinux", "is_storage_device")
     rets = [norm_stmt(s.value) for s in ast.walk(isd.node) if isinstance(s, ast.Return)]
     if good and any("os.access" in r and "F_OK" in r for r in rets):
